@@ -197,7 +197,7 @@ def drive_forms(u, which):
 
 def w_mzm(ctx, rng, i):
     T.gv(sps=int(rng.choice([4, 8, 16])), R=float(rng.choice([1e9, 1e10])))
-    n = int(rng.choice([4, 5, 16, 63, 256, 1000]))
+    n = core.long_or(rng, i, int(rng.choice([4, 5, 16, 63, 256, 1000])))
     n_pol = int(rng.integers(1, 3))
     noise_kind = str(rng.choice(["none", "random", "random", "sum_zero", "zeros"]))
     x = make_field(rng, n, n_pol, noise_kind, real=bool(rng.integers(5) == 0))
@@ -270,7 +270,7 @@ def w_mzm_er(ctx, rng, i):
 
 def w_pm(ctx, rng, i):
     T.gv(sps=8, R=1e9)
-    n = int(rng.choice([4, 7, 32, 255, 1024]))
+    n = core.long_or(rng, i, int(rng.choice([4, 7, 32, 255, 1024])))
     n_pol = int(rng.integers(1, 3))
     noise_kind = str(rng.choice(["none", "random", "sum_zero", "sum_zero", "zeros"]))
     x = make_field(rng, n, n_pol, noise_kind, real=bool(rng.integers(5) == 0))
